@@ -13,13 +13,18 @@ VARIABLE c
 \* ---- C03: a source file at a path class holding one attributed function
 PathClasses == AcceptedPathClasses \cup RejectedPathClasses
 Attrs == CommandAttrs \cup OtherAttrs
-DiscCases ==
-    { [kind |-> "disc", pc |-> pc, parsable |-> pb, attr |-> a, pos |-> p, vis |-> v, async |-> as, nm |-> nm] :
+DiscCasesAll ==
+    { [kind |-> "disc", pc |-> pc, parsable |-> pb, attr |-> a, pos |-> p, vis |-> v, async |-> as, nm |-> nm, par |-> par] :
         pc \in PathClasses, pb \in BOOLEAN, a \in Attrs, p \in {"top", "mod", "impl"},
         v \in {"pub", "crate", "private"}, as \in BOOLEAN,
         \* how the function's name is written: plainly, as a raw identifier (fn r#name: invoked as `name`), with a
         \* leading underscore
-        nm \in {"plain", "raw", "underscore"} }
+        nm \in {"plain", "raw", "underscore"},
+        \* what the function takes: a value, nothing, only a channel, a value and a channel, only an injected handle
+        \* (varied for public synchronous functions; the wrapper's invoke name must be the Rust name for each)
+        par \in {"value", "none", "channel", "both", "injected"} }
+
+DiscCases == {dc \in DiscCasesAll : dc.par = "value" \/ (dc.vis = "pub" /\ ~dc.async)}
 
 \* ---- C07/C09: type graphs
 N3 == {"A", "B", "C"}
@@ -102,6 +107,26 @@ KindCases ==
        roots |-> {[site |-> rsite, ctx |-> rcx, to |-> "A", ty |-> Ty(rcx, "A")]}]
       : k \in NodeKinds, rsite \in {"param", "ret", "chan", "event"}, rcx \in {"direct", "opt", "vec"} }
 
+\* ---- C07: ONE command that reaches two types through two different sites (a streaming command with a channel AND a
+\* return value, a parameter and a return value, ...).  A sits at `site`, B (-> C) at `site2`; nothing else reaches B.
+SplitRootCases ==
+    { [kind |-> "graph", nodes |-> <<"A", "B", "C">>,
+       edges |-> [n \in N3 |-> IF n = "B" THEN {[ctx |-> "direct", to |-> "C", ty |-> Node("C")]} ELSE {}],
+       serde |-> [n \in N3 |-> TRUE],
+       roots |-> {[site |-> s1, site2 |-> s2, ctx |-> cx, to |-> "A", also |-> {"B"}, ty |-> Node("A"), ty2 |-> Ty(cx, "B"), ord |-> 1]}]
+      : <<s1, s2>> \in {p \in {"param", "ret", "chan"} \X {"param", "ret", "chan"} : p[1] # p[2]},
+        cx \in {"direct", "opt", "vec", "resok"} }
+
+\* ---- C07: ONE event name emitted from two functions with DIFFERENT payload types (one listener, but both payload
+\* types are event payloads and so is everything behind them)
+SameEventCases ==
+    { [kind |-> "graph", nodes |-> <<"A", "B", "C">>,
+       edges |-> [n \in N3 |-> IF n = "B" THEN {[ctx |-> "direct", to |-> "C", ty |-> Node("C")]} ELSE {}],
+       serde |-> [n \in N3 |-> TRUE],
+       roots |-> {[site |-> "event", ctx |-> ca, to |-> "A", ty |-> Ty(ca, "A"), also |-> {}, evname |-> "same", ord |-> oa],
+                  [site |-> "event", ctx |-> cb, to |-> "B", ty |-> Ty(cb, "B"), also |-> {}, evname |-> "same", ord |-> 3 - oa]}]
+      : ca \in {"direct", "vec"}, cb \in {"direct", "opt"}, oa \in {1, 2} }
+
 \* ---- C07: the same graphs spread over files.  `place` maps the command file ("cmd") and every type to one of four
 \* file slots; slot order is the order in which the analyser walks the files (path order), so all 256 assignments
 \* cover every relative order of "file that mentions a type" and "file that defines it", on chains (depth 2),
@@ -158,7 +183,7 @@ Space == CASE Mode = "disc"    -> DiscCases
            [] Mode = "derives" -> DeriveCases
            [] Mode = "edges2"  -> Edges2Cases
            [] Mode = "kinds"   -> KindCases
-           [] Mode = "pairroots" -> PairRootCases
+           [] Mode = "pairroots" -> PairRootCases \cup SplitRootCases \cup SameEventCases
            [] Mode = "emits"   -> EmitCases
 Init == c \in Space
 Next == UNCHANGED c
